@@ -112,6 +112,7 @@ class Prop:
         self.axioms = []
         self.natives = {}
         self.ghosts = {}
+        self.globals = {}
 
     def cls(self, name, bases=(), fields=None, elem=None, props=None, truthy=None, consts=None):
         c = ClassDecl(name, bases, fields, elem, props, truthy, consts)
@@ -124,6 +125,10 @@ class Prop:
     def ghost(self, name, typ):
         """Ghost global (call-protocol state); written only through Contract.ghost_sets of trusted contracts."""
         self.ghosts[name] = typ
+
+    def global_obj(self, name, cls):
+        """A module-level singleton (e.g. a class object whose attributes are read and written): name -> declared class."""
+        self.globals[name] = cls
 
     def const(self, name, value):
         self.consts[name] = value
